@@ -16,7 +16,7 @@ import z3
 sys.path.insert(0, os.path.dirname(os.path.abspath(__file__)))
 from mir import load_functions, Unsupported
 from exec import Explorer, Interp, Int, Adt, Enum, Cell, Ref, Tup, PathEnd, Infeasible
-from models import MODELS, VecObj
+from models import MODELS, VecObj, deref
 from adts import load_enums
 
 # per pass: the kinds that matter to it (name -> constructor), and whether it reads characters
@@ -36,6 +36,12 @@ MENUS = {
     "parse:numbers": ["number", "word", "period", "space"],
     "parse:lines": ["newline", "space", "word", "period"],
 }
+# fixed token kinds (boundaries and characters stay symbolic): shapes too long for the forked menus
+SKELETONS = {
+    "condense_number_suffixes:two_ordinals": ["number", "word", "space", "number", "word"],
+    "parse:two_ordinals": ["number", "word", "space", "number", "word"],
+    "condense_number_suffixes:three_ordinals": ["number", "word", "space", "number", "word", "space", "number", "word"],
+}
 
 
 def find_fn(raw, suffix, contains=""):
@@ -53,7 +59,10 @@ def run(mir_path, pass_name, n, src_dir, extra=2):
     fn = find_fn(raw, ">::" + pass_name, "document::<impl")
     f_ri = find_fn(raw, ">::remove_indices")
     resolve = {r" as VecExt>::remove_indices$": f_ri}
-    menu = MENUS[variant]
+    skeleton = SKELETONS.get(variant)
+    menu = MENUS[variant] if skeleton is None else sorted(set(skeleton))
+    if skeleton is not None and len(skeleton) != n:
+        raise Unsupported(f"skeleton {variant} has {len(skeleton)} tokens")
     L = n + extra
     bounds = [z3.BitVec(f"b{i}", 64) for i in range(n + 1)]
     sel = [z3.BitVec(f"k{i}", 8) for i in range(n)]
@@ -105,8 +114,11 @@ def run(mir_path, pass_name, n, src_dir, extra=2):
         toks = []
         kinds_here = []
         for i in range(n):
-            ctx.assume(z3.ULT(sel[i], len(menu)))
-            k = ctx.choose(sel[i], list(range(len(menu))))
+            if skeleton is not None:
+                k = menu.index(skeleton[i])
+            else:
+                ctx.assume(z3.ULT(sel[i], len(menu)))
+                k = ctx.choose(sel[i], list(range(len(menu))))
             kinds_here.append(menu[k])
             span = Adt("Span", [Int(bounds[i]), Int(bounds[i + 1])])
             toks.append(Adt("Token", [span, mk_kind(ctx, i, menu[k])]))
@@ -180,6 +192,25 @@ def run(mir_path, pass_name, n, src_dir, extra=2):
                         if kinds_here[i] == "number":
                             orig = z3.Or(orig, z3.And(bounds[i] == s0, e0 == bounds[i + 1] + 2))
                     claims.append((orig, "a number token with an ordinal suffix covers more than its digits and the two suffix letters"))
+            # ... and a number directly followed by a word that is exactly an ordinal suffix (st / nd / rd / th, any case)
+            # becomes ONE number token over both that carries that suffix - for every such pair of the document
+            def low_(c):
+                return z3.If(z3.And(z3.UGE(c, 65), z3.ULE(c, 90)), c + 32, c)
+            SUF = {"St": "st", "Nd": "nd", "Rd": "rd", "Th": "th"}
+            for i in range(n - 1):
+                if kinds_here[i] == "number" and kinds_here[i + 1] == "word" and (i == 0 or kinds_here[i - 1] != "number"):
+                    two = bounds[i + 2] - bounds[i + 1] == 2
+                    for var, txt in SUF.items():
+                        conds = []
+                        for k0 in range(L - 1):
+                            conds.append(z3.And(bounds[i + 1] == k0, low_(chars[k0]) == ord(txt[0]), low_(chars[k0 + 1]) == ord(txt[1])))
+                        spells = z3.And(two, z3.Or(*conds))
+                        found = z3.BoolVal(False)
+                        for t in out:
+                            k = t.fields[1]
+                            if k.variant == "Number" and k.fields[0].fields[1].variant == "Some" and deref(k.fields[0].fields[1].fields[0]).variant == var:
+                                found = z3.Or(found, z3.And(t.fields[0].fields[0].t == bounds[i], t.fields[0].fields[1].t == bounds[i + 2]))
+                        claims.append((z3.Implies(spells, found), "a number directly followed by an ordinal suffix did not become one number token carrying that suffix"))
         # counterexamples are replayed through the lexer: prefer ones it can produce (two adjacent blank tokens exist
         # only as a run of tabs next to a run of spaces)
         prefer = []
